@@ -112,6 +112,19 @@ RefusalVectors ==
     {[tool |-> t, name |-> "", valid |-> a, kinds |-> <<>>, fmt |-> f, dev |-> "build_refusal", pos |-> 0, cls |-> "",
       opts |-> {}] : t \in Tools, a \in BuildRefusals, f \in FormatSelections}
 
+\* Graph constructions with every combination of small numeric arguments (0 and 1 are where the
+\* validators and the samplers meet): the sub-command is the simplest one taking that graph type.
+Constructions == { <<"tiling", "gnp", 2>>, <<"tiling", "gnm", 2>>, <<"tiling", "gnd", 2>>, <<"tiling", "grid", 2>>,
+                   <<"tiling", "torus", 2>>, <<"tiling", "complete", 1>>, <<"tiling", "complete", 2>>, <<"tiling", "empty", 1>>,
+                   <<"tiling", "gnp", 3>>,
+                   <<"php", "glrp", 3>>, <<"php", "glrm", 3>>, <<"php", "glrd", 3>>, <<"php", "regular", 3>>,
+                   <<"php", "shift", 3>>, <<"php", "complete", 2>>, <<"php", "empty", 2>>,
+                   <<"peb", "pyramid", 1>>, <<"peb", "tree", 1>>, <<"peb", "path", 1>> }
+SmallArgs == {"0", "1", "2", "3"}
+SpecGridVectors ==
+    UNION {{[tool |-> "cnfgen", name |-> c[1], valid |-> <<c[2]>> \o a, kinds |-> <<>>, fmt |-> "default",
+             dev |-> "graph_spec_grid", pos |-> 0, cls |-> "", opts |-> {}] : a \in [1..c[3] -> SmallArgs]} : c \in Constructions}
+
 \* the two single-purpose tools: no sub-command, an input file option
 OtherTools == { [tool |-> "cnfshuffle", sc |-> Sub("", <<"word", "file">>, <<"-i", "@cnf">>,
                                                   {"-p", "-v", "-c", "-q", "--no-polarity-flips"})],
@@ -124,7 +137,7 @@ OtherVectors ==
                  x \in OtherTools}
   \cup {V(x.tool, x.sc, "default", d, 0, "", {}) : x \in OtherTools,
             d \in {"missing_last", "extra_argument", "unknown_option", "help", "seed_word", "output_to_directory"}}
-AllVectors == Vectors \cup OtherVectors \cup RefusalVectors
+AllVectors == Vectors \cup OtherVectors \cup RefusalVectors \cup SpecGridVectors
 
 \* dimacs output cannot be asked of pbgen, and transformations are cnfgen's
 Expect(v) ==
